@@ -25,6 +25,7 @@ type Explorer struct {
 	stubs      map[string]*ssa.Function
 	params     map[string]int
 	workers    int
+	tier       string
 	solverKind string
 	timeoutMs  int
 	maxSteps   int64
@@ -69,6 +70,7 @@ func (ex *Explorer) newInterp() (*Interp, error) {
 		intrinsicCache: map[*ssa.Function]intrinsicFn{},
 		fnInfos:        map[*ssa.Function]*fnInfo{},
 		params:         ex.params,
+		tier:           ex.tier,
 		noModelCache:   os.Getenv("GOSYM_NO_MODEL_CACHE") != "",
 	}
 	if ex.kernel != nil && ex.kernel.NoMerge {
@@ -88,6 +90,7 @@ func (in *Interp) runPath(entry *ssa.Function) (end pathEnd) {
 	in.depth = 0
 	in.symMapOrder = false
 	in.undefN = 0
+	in.ghost = map[int]*Term{}
 	in.live = append(in.live[:0], in.all...)
 	in.evlog = in.evlog[:0]
 	in.mergeGuard = nil
